@@ -1118,7 +1118,7 @@ pub fn check_ossim(property: &str, tier: &str) -> i32 {
             let (shard, nshards) = if property == "C03" { (s as u64, shards as u64) } else { ((b * shards + s) as u64, nw) };
             jobs.push((
                 vec!["worker".to_string(), "ossim".to_string()],
-                json!({"property": property, "tier": tier, "seed": seed, "boot_seed": hashsim::boot_seed_n(seed, b), "shard": shard, "shards": nshards, "runs": runs, "validate_runs": validate}),
+                json!({"property": property, "tier": tier, "seed": seed, "boot_seed": hashsim::boot_seed_n(seed, b), "shard": shard, "shards": nshards, "runs": runs, "validate_runs": validate, "real_runs": if property == "C03" { 0 } else { scaled(if thorough { 2_500 } else { 25 }) }}),
             ));
         }
     }
@@ -1131,6 +1131,7 @@ pub fn check_ossim(property: &str, tier: &str) -> i32 {
     let mut triples: BTreeSet<String> = BTreeSet::new();
     let mut faults: BTreeMap<String, u64> = BTreeMap::new();
     let mut natural: BTreeMap<String, u64> = BTreeMap::new();
+    let mut real_worlds: BTreeMap<String, u64> = BTreeMap::new();
     let mut counters: BTreeMap<String, u64> = BTreeMap::new();
     let mut samples = Vec::new();
     let mut cases_total = 0u64;
@@ -1153,6 +1154,7 @@ pub fn check_ossim(property: &str, tier: &str) -> i32 {
                 }
                 add(&mut faults, &v["faults_fired"]);
                 add(&mut natural, &v["natural_errors"]);
+                add(&mut real_worlds, &v["real_directory_runs"]);
                 for k in ["torn_effects", "torn_seen_by_later_read", "fault_right_after_create", "lang_route_rejected", "distinct_final_states", "validated_against_real_fs", "table_runs", "single_fault_enumeration_runs"] {
                     *counters.entry(k.to_string()).or_default() += v[k].as_u64().unwrap_or(0);
                 }
@@ -1179,7 +1181,7 @@ pub fn check_ossim(property: &str, tier: &str) -> i32 {
         let class = c["class"].as_str().unwrap_or("").to_string();
         let mut c = c;
         c["sim"] = json!("ossim");
-        let is_seq = c["scenario"]["sim"].as_str() == Some("ossim");
+        let is_seq = matches!(c["scenario"]["sim"].as_str(), Some("ossim") | Some("ossim-real"));
         if is_seq {
             let k = per_class.entry(class.clone()).or_default();
             if *k >= 3 {
@@ -1239,6 +1241,7 @@ pub fn check_ossim(property: &str, tier: &str) -> i32 {
         "fault_kinds_fired": faults,
         "faults_fired_total": fault_total,
         "state_dependent_errors_produced_by_model": natural,
+        "unhooked_runs_in_a_real_directory_by_world": real_worlds,
         "probes": counters,
         "cases_enumerated": cases_total,
         "boot_seeds": boots,
